@@ -423,6 +423,21 @@ package immutable
 //@   loop 1
 //@     invariant n == rangeindex + 1
 
+// The full merge of a cold shard takes the out-of-order files in rounds; the files of ONE round are adjacent in age
+// (the output takes the first file's sequence: merging files k-1 and k+1 around a file k that stays behind moves the
+// younger file's rows in front of k, and k's older values then override them). An over-sized file is therefore passed
+// over only by a round that is still EMPTY - its size is not even consulted while the round holds a file.
+//@ func buildFullMergeContext
+//@   ghost known bool = false
+//@   ghost open bool = false
+//@   call (*MergeContext).UnorderedLen
+//@     set known = true
+//@     set open = (ret0 != 0)
+//@   call .FileSize
+//@     requires [a_file_is_passed_over_only_by_an_empty_round] known && !open
+//@   call (*MergeContext).AddUnordered
+//@     set known = false
+
 // ================================================================ C07: the single-value block layout
 //@ prop C07
 // A segment holding one row may store just the value's bytes ("one value" block). The reader takes an EMPTY payload
@@ -451,6 +466,12 @@ package immutable
 //@     set mn = ret0
 //@     set mx = ret1
 //@     set got = true
+// The id-time block of the file records, per series, the time up to which the series has been flushed; after a restart
+// the writer decides from it whether a late row still belongs behind the ordered files (ordered) or has to go to an
+// out-of-order file. It is the chunk's LATEST time: recording the earliest lets rows inside the chunk's span be flushed
+// as a second, overlapping ordered file.
+//@   call (*StreamWriteFile).updateChunkStat
+//@     requires [flushed_time_of_the_series_is_the_latest_time_of_the_chunk] got && arg1 == mx
 //@   call (*StreamWriteFile).SwitchChunkMeta
 //@     requires [index_item_covers_the_chunk] got && c.mIndex.minTime <= mn && c.mIndex.maxTime >= mx
 //@     requires [trailer_covers_the_chunk] got && c.trailer.minTime <= mn && c.trailer.maxTime >= mx
@@ -580,3 +601,16 @@ package immutable
 //@   requires c != nil
 //@   call (*StreamWriteFile).SwitchChunkMeta
 //@     requires [no_meta_index_entry_for_an_empty_block] c.mIndex.count > 0
+
+// The compaction writer's twin of the rule above: the per-series flushed time recorded in the id-time block of a
+// compacted file is the chunk's latest time.
+//@ prop C02
+//@ func (*StreamIterators).writeMetaToDisk
+//@   requires c != nil
+//@   ghost mx int64 = 0
+//@   ghost got bool = false
+//@   call (*ChunkMeta).MinMaxTime
+//@     set mx = ret1
+//@     set got = true
+//@   call (*StreamIterators).updateChunkStat
+//@     requires [flushed_time_of_the_series_is_the_latest_time_of_the_chunk] got && arg1 == mx
